@@ -3,6 +3,20 @@
 // raftio.ILogDB, driven by tape-chosen operation sequences and compared after
 // every operation with RefLog, a slice model written from the statement of
 // C19.
+//
+// Update/Commit cycles follow Peer.GetUpdate / engine.processSteps /
+// Peer.Commit. Param lag=0 runs the three phases (take the update, persist +
+// LogReader.Append + scheduled compaction, Commit) back to back like the
+// step worker does; lag=1 separates them and lets everything that does not
+// run on the node's step worker happen in between (apply progress, local
+// snapshots, a leader's commit re-evaluation, the remote leader moving on);
+// lag=2 (exploratory, not registered) lets appends and conflict truncations
+// happen in between as well. The entry log is NOT robust against lag=2: an
+// acknowledgement whose (index, term) was truncated away is dropped as a
+// whole although a prefix of that update was persisted and applied; once
+// appliedLogTo trims the window past savedTo, entriesToSave() underflows
+// (idx-markerIndex) and returns nothing for ever. The engine never steps a
+// node between GetUpdate and Commit, so this is outside the property.
 package entrylog
 
 import (
